@@ -151,11 +151,31 @@ theorem accepted_forward_not_in_onchain_window (h out inc delta : Nat)
   intro h' hh
   timing_omega
 
+/-- The monitor's pre-emptive upstream fail-back (downstream channel closed, forward still unresolved)
+    fires only once the downstream timeout has been buried under the library's stated bounds: for every
+    delta ≥ MIN_CLTV_EXPIRY_DELTA and confirmation delays within MAX_BLOCKS_FOR_CONF, any height at which
+    `earlyFailBack` holds is at or after `upstreamFailHeight`; so it can never give up an upstream HTLC that
+    the downstream peer could still claim. -/
+theorem early_failback_only_when_buried (h outCltv inCltv delta d1 d2 : Nat) (hd : MIN_CLTV_EXPIRY_DELTA ≤ delta)
+    (hin : outCltv + delta ≤ inCltv) (h1 : d1 ≤ MAX_BLOCKS_FOR_CONF) (h2 : d2 ≤ MAX_BLOCKS_FOR_CONF)
+    (hh : h < 2 ^ 31) (he : earlyFailBack h inCltv = true) :
+    upstreamFailHeight outCltv d1 d2 ≤ h := by
+  simp only [earlyFailBack, satAdd32] at he
+  split at he <;> timing_omega
+
+/-- ... and it fires no later than one grace period before the upstream expiry, so the upstream peer has
+    no reason to close. -/
+theorem early_failback_in_time (inCltv : Nat) (hh : inCltv < 2 ^ 31) (hc : LATENCY_GRACE_PERIOD_BLOCKS ≤ inCltv) :
+    earlyFailBack (inCltv - LATENCY_GRACE_PERIOD_BLOCKS) inCltv = true := by
+  simp only [earlyFailBack, satAdd32]
+  split <;> timing_omega
+
 -- Non-vacuity: concrete heights meeting every hypothesis used above.
 example : finalExpiryTooSoon 100 141 = false ∧ claimDeadline 141 = 102 := by decide
 example : checkIncomingHtlcCltv 100 140 188 48 = .ok () := by rfl
 example : checkIncomingHtlcCltv 100 103 188 48 = .error .outgoingCLTVTooSoon := by rfl
 example : shouldBroadcastFor 104 140 false true = true ∧ shouldBroadcastFor 103 140 false true = false := by decide
+example : earlyFailBack 137 140 = true ∧ earlyFailBack 136 140 = false := by decide
 example : hasReachedConfirmationThreshold 105 100 none = true ∧ hasReachedConfirmationThreshold 104 100 none = false := by decide
 
 end Ldk.C08
